@@ -20,6 +20,9 @@ Rule family R14 (context independence) over every function that can sit behind
 Absolute constructs -- Move with reference 'begins', per-element ``aligned=`` of
 sequences -- are listed in the evidence, not flagged: the statement excludes them.
 User callbacks that inspect ``raw`` are excluded by the statement.
+
+Round 4: whole-buffer re.* scans; the loop-block generators (and the helpers that fill their
+holes) do not special-case field kinds; a cursor assignment made of generated text is no verdict.
 """
 import ast
 
